@@ -1,34 +1,134 @@
 ID = 'C20'
-UNITS = {'math': dict(wrap='wrap.cc', new_block=64)}
-BOUNDS = ''
-STUBS = []
-OUTSIDE = []
-ASSUMPTIONS = []
+UNITS = {
+    'math': dict(wrap='wrap.cc', new_block=64),
+    # the real block size of random_data's refill (readx(fd, 4096)): bigger stub buffer and heap blocks
+    'rand4k': dict(wrap='wrap.cc', new_block=4224, cxxflags=['-DVERIF_URANDOM_CAP=4096']),
+}
+BOUNDS = ('log2i: every positive value of all 8 integer types. gcd/reduce_fraction: definition (divides both, every common divisor '
+          'divides it, coprime reduced terms, same ratio in 128-bit) for operands < 2^6 (quick) / < 2^8 (thorough) in uint8/16/32/64 and '
+          'int32, plus the full-width identities gcd(x,0)=gcd(0,x)=gcd(x,x)=x, gcd(x,1)=1 for every value of all 8 types. '
+          'random_int: every lo<=hi with hi-lo+1 representable, every byte of the random source symbolic; random_data: request '
+          'sizes <= 6 in two consecutive calls, source block sizes 1..16 (and the real 4096 in the thorough tier). '
+          'Vector2/3/4<int32>: + - unary- (every input whose exact result fits int32), * / % scalar (operands in [-15,15] quick, '
+          '[-127,127] thorough), !, ==, !=, norm1, dims (full width), dot/norm2 (components in [-4,4] quick, [-15,15] thorough), '
+          'operator< laws on three full-width symbolic vectors, at(i), constructors, cross == definition and orthogonality for '
+          'components in [-2,2] quick / [-4,4] thorough. Matrix4<int32>: identity, M*v (entries in [-4,4]), transposition '
+          '(full width), operator==, elementwise operators, A*B == definition and (AB)v == A(Bv) for entries in [-1,1].')
+STUBS = [
+    'phosg::scoped_fd("/dev/urandom") constructor/destructor/operator int and phosg::readx(int fd, size_t n) (Filesystem.cc) are replaced in '
+    'props/C20/wrap.cc by definitions forwarding to the harness function verif_urandom(buf, n): it delivers BLOCK bytes per call (BLOCK = 1..16 '
+    'per cell instead of the 4096 requested; the unit rand4k / BLOCK=0 delivers exactly the n = 4096 requested bytes), every byte a solver input; '
+    'read errors / short reads of /dev/urandom are not modelled (readx throws in the real code)',
+    '__cxa_thread_atexit / __cxa_atexit (destructor registration of the static fd and the thread_local buffer): no-ops (engine/rt/rt_model.c)',
+]
+OUTSIDE = [
+    'Matrix4::inverse()/invert(): Gauss-Jordan elimination in double arithmetic with a tolerance claim (M*inverse(M) = I up to 1e-9 for diagonally '
+    'dominant M) is a floating-point numerical statement; not attempted with the bit-level solver',
+    'norm() (sqrt), str() (printf %g), the double/float instantiations of Vector/Matrix',
+    'gcd/reduce_fraction for operands >= 2^8 (measured: operands < 2^10 in uint16/uint64 give no verdict in 300 s with kissat; each Euclid step is a '
+    'relational divider for the SAT solver) apart from the full-width identities listed in BOUNDS; negative operands (excluded by the property)',
+    'products with larger operands: dot/norm2/cross/M*v/A*B beyond the stated component bounds (32-bit multiplier equivalence: components < 2^8 already '
+    'give no verdict in 300 s on the default back end); signed overflow cases (undefined behaviour in C++) are excluded by assumption in every arithmetic harness',
+    'random_int when hi - lo + 1 overflows int64 (hi - lo >= 2^63 - 1): `high - low + 1` is a signed overflow (undefined behaviour; UBSan aborts the '
+    'replay build), see NOTES.md; the statistical quality (modulo bias) of random_int; /dev/urandom itself',
+    'random_data request sizes > 6 and more than two consecutive calls',
+]
+ASSUMPTIONS = [
+    'x86-64: int is 32 bits, long long 64 bits (log2i fix uses __builtin_clzll)',
+    'the harness-side reference for * / % on int32 operands is C\'s own operator on the same operands (exact because operands are bounded); what is '
+    'decided is that the right operation is applied to the right components in both the value-returning and the compound form',
+]
 
 TYPES = (('u8', 8, 0), ('u16', 16, 0), ('u32', 32, 0), ('u64', 64, 0), ('i8', 8, 1), ('i16', 16, 1), ('i32', 32, 1), ('i64', 64, 1))
 
+
+def fib_unwind(opbits):
+    """Euclid on operands < 2^opbits runs at most n steps where F(n+1) < 2^opbits (Lame); +2 for the swap step and the loop exit"""
+    a, b, n = 1, 1, 1
+    while b < (1 << opbits):
+        a, b, n = b, a + b, n + 1
+    return n + 2
+
+
 def queries(tier):
+    thorough = tier != 'quick'
     qs = []
-    def q(name, harness, defs, unwind, timeout=300, mem_gb=4, desc='', bounds='', **kw):
-        d = dict(name=name, unit='math', harness=harness, defs=defs, unwind=unwind, timeout=timeout, mem_gb=mem_gb, desc=desc, bounds=bounds)
+
+    def q(name, harness, defs, unwind, timeout=300, mem_gb=4, desc='', bounds='', unit='math', **kw):
+        d = dict(name=name, unit=unit, harness=harness, defs=defs, unwind=unwind, timeout=timeout, mem_gb=mem_gb, desc=desc, bounds=bounds)
         d.update(kw)
         qs.append(d)
+
+    # ---- log2i -------------------------------------------------------------------------------------------------------
     for t, bits, sg in TYPES:
         q('log2i_%s' % t, 'h_log2i.c', {'T': t, 'BITS': bits, 'SIGNED': sg}, 66, 120,
-          desc='log2i<%s>(v): 2^r <= v < 2^(r+1) for every positive v of the type' % t, bounds='all positive values')
-    for t, bits, ob, be in (('u8', 8, 8, 'kissat'), ('u8', 8, 8, 'cadical'), ('u16', 16, 8, 'kissat'), ('u32', 32, 8, 'kissat'), ('u64', 64, 8, 'kissat'), ('u16', 16, 10, 'kissat'), ('u64', 64, 10, 'kissat')):
-        q('gcd_%s_o%d_%s' % (t, ob, be), 'h_gcd.c', {'T': t, 'BITS': bits, 'OPBITS': ob, 'MODE': 0}, 14 if ob == 8 else 17, 300, backend=be)
-        q('red_%s_o%d_%s' % (t, ob, be), 'h_gcd.c', {'T': t, 'BITS': bits, 'OPBITS': ob, 'MODE': 1}, 14 if ob == 8 else 17, 300, backend=be)
-    q('gcdspec_u64', 'h_gcd.c', {'T': 'u64', 'BITS': 64, 'OPBITS': 64, 'MODE': 2}, 5, 300)
-    q('gcdspec_i32', 'h_gcd.c', {'T': 'i32', 'BITS': 32, 'OPBITS': 31, 'MODE': 2}, 5, 300)
-    for nn in (8, 14):
-        q('v4_ops_mul_nn%d' % nn, 'h_vec.c', {'DIMS': 4, 'MODE': 0, 'GROUP': 1, 'MB': 32767, 'NNBITS': nn}, 10, 300)
-        q('v4_preds_nn%d' % nn, 'h_vec.c', {'DIMS': 4, 'MODE': 1, 'PB': 16383, 'NNBITS': nn}, 6, 300)
-        q('m4_mulv_nn%d' % nn, 'h_mat.c', {'MODE': 0, 'VB': 16383, 'NNBITS': nn}, 18, 300)
-        q('m4_ops_mul_nn%d' % nn, 'h_mat.c', {'MODE': 4, 'GROUP': 1, 'MB': 32767, 'NNBITS': nn}, 18, 300)
-    q('m4_mulv_4_kissat', 'h_mat.c', {'MODE': 0, 'VB': 4}, 18, 300, backend='kissat')
-    q('m4_mulm_nn2', 'h_mat.c', {'MODE': 2, 'EB': 3, 'NNBITS': 2}, 18, 300, mem_gb=8)
-    q('m4_mulm_nn4_kissat', 'h_mat.c', {'MODE': 2, 'EB': 15, 'NNBITS': 4}, 18, 300, mem_gb=8, backend='kissat')
-    q('m4_assoc_nn1_kissat', 'h_mat.c', {'MODE': 3, 'EB': 1, 'NNBITS': 1}, 70, 300, mem_gb=8, backend='kissat')
-    q('m4_assoc_eb1_kissat', 'h_mat.c', {'MODE': 3, 'EB': 1}, 70, 300, mem_gb=8, backend='kissat')
+          desc='log2i<%s>(v): 0 <= r < value bits and (v >> r) == 1, i.e. 2^r <= v < 2^(r+1), for every positive v of the type' % t,
+          bounds='all positive values of the type')
+    # ---- gcd / reduce_fraction ------------------------------------------------------------------------------------------
+    ob = 8 if thorough else 6
+    for t, bits, sg in (('u8', 8, 0), ('u16', 16, 0), ('u32', 32, 0), ('u64', 64, 0), ('i32', 32, 1)):
+        q('gcd_%s_o%d' % (t, ob), 'h_gcd.c', {'T': t, 'BITS': bits, 'OPBITS': ob, 'MODE': 0}, fib_unwind(ob), 900, backend='kissat', cost=200,
+          desc='gcd<%s>(a,b): divides a and b; every (symbolic) common divisor d divides it; gcd(a,0)=a, gcd(0,b)=b' % t,
+          bounds='0 <= a, b < 2^%d, 1 <= d < 2^%d' % (ob, ob))
+        q('reduce_%s_o%d' % (t, ob), 'h_gcd.c', {'T': t, 'BITS': bits, 'OPBITS': ob, 'MODE': 1}, fib_unwind(ob), 900, backend='kissat', cost=200,
+          desc='reduce_fraction<%s>(a,b), b != 0: p*b == q*a in 128-bit, q != 0, no d >= 2 divides both p and q, terms do not grow' % t,
+          bounds='0 <= a < 2^%d, 1 <= b < 2^%d' % (ob, ob))
+    for t, bits, sg in TYPES:
+        q('gcd_fullwidth_%s' % t, 'h_gcd.c', {'T': t, 'BITS': bits, 'OPBITS': bits - sg, 'MODE': 2}, 5, 900, backend='kissat', cost=150 if bits == 64 else 10,
+          desc='gcd<%s>: gcd(x,0)=gcd(0,x)=gcd(x,x)=x, gcd(x,1)=gcd(1,x)=1, reduce_fraction(x,x)=(1,1), (x,1)->(x,1), (0,x)->(0,1)' % t,
+          bounds='every non-negative x of the type')
+    # ---- Random.cc -------------------------------------------------------------------------------------------------------
+    for blk in ((8,) if not thorough else (1, 3, 8, 16)):
+        q('random_int_b%d' % blk, 'h_random.c', {'MODE': 0, 'BLOCK': blk}, 20, 300,
+          desc='random_int(lo,hi) in [lo,hi], no exception; source hands out %d-byte blocks, every byte symbolic' % blk,
+          bounds='all lo <= hi with hi - lo <= 2^63 - 2')
+    cells = [(4, 3, 2), (4, 4, 1), (1, 2, 2), (16, 6, 6)] if not thorough else \
+        [(b, n1, n2) for b in (1, 2, 4, 16) for (n1, n2) in ((0, 0), (0, 3), (3, 0), (1, 1), (3, 2), (4, 4), (5, 6), (6, 6))]
+    for b, n1, n2 in cells:
+        q('random_data_b%d_%d_%d' % (b, n1, n2), 'h_random.c', {'MODE': 1, 'BLOCK': b, 'N1': n1, 'N2': n2}, 20, 300,
+          desc='random_data(buf,%d) then random_data(buf,%d): exactly the requested bytes written (canaries intact), every delivered byte is a '
+               'source byte, no source byte delivered twice, number of refills == ceil(total/block)' % (n1, n2),
+          bounds='block size %d, request sizes %d and %d' % (b, n1, n2))
+    for b, n in ([(4, 5)] if not thorough else [(4, 0), (4, 5), (16, 6), (3, 20)]):
+        q('random_str_b%d_%d' % (b, n), 'h_random.c', {'MODE': 2, 'BLOCK': b, 'N1': n}, 24, 300,
+          desc='random_data(%d) (string form) has size %d and every byte from the source' % (n, n), bounds='block size %d, n == %d' % (b, n))
+    if thorough:
+        q('random_int_block4096', 'h_random.c', {'MODE': 0, 'BLOCK': 0}, 4100, 1500, mem_gb=12, unit='rand4k', tv_runs=10, cost=1500,
+          desc='random_int with the exact readx contract (one 4096-byte block per refill)', bounds='all lo <= hi with hi - lo <= 2^63 - 2')
+    # ---- Vector2/3/4<int32_t> ----------------------------------------------------------------------------------------------
+    mb = 127 if thorough else 15
+    pb = 15 if thorough else 4
+    for dims in (2, 3, 4):
+        q('v%d_ops_lin' % dims, 'h_vec.c', {'DIMS': dims, 'MODE': 0, 'GROUP': 0}, 12, 300,
+          desc='Vector%d: unary -, +/- vector, +/- scalar, and += -= forms == componentwise definition (symbolic operator choice)' % dims,
+          bounds='every input whose exact result fits int32')
+        for g, gn in ((1, 'mul'), (2, 'div'), (3, 'mod')):
+            q('v%d_ops_%s' % (dims, gn), 'h_vec.c', {'DIMS': dims, 'MODE': 0, 'GROUP': g, 'MB': mb}, 12, 900, backend='kissat',
+              desc='Vector%d: operator %s scalar and its compound form == componentwise definition' % (dims, {'mul': '*', 'div': '/', 'mod': '%'}[gn]),
+              bounds='components and scalar in [-%d,%d]%s' % (mb, mb, '' if g == 1 else ', scalar != 0'))
+        q('v%d_preds' % dims, 'h_vec.c', {'DIMS': dims, 'MODE': 1, 'PB': pb}, 8, 900, backend='kissat',
+          desc='Vector%d: operator!, ==, !=, dimensions(), norm1 (full width, exact sum fits), norm2 and dot == definitions' % dims,
+          bounds='full width; norm2/dot: components in [-%d,%d]' % (pb, pb))
+        q('v%d_order' % dims, 'h_vec.c', {'DIMS': dims, 'MODE': 2}, 8, 300,
+          desc='Vector%d operator<: == lexicographic definition; irreflexive, asymmetric, transitive, incomparability transitive; '
+               '!(a<b)&&!(b<a) <=> a==b; == is componentwise' % dims, bounds='three symbolic vectors, full int32 width')
+        q('v%d_at' % dims, 'h_vec.c', {'DIMS': dims, 'MODE': 3}, 8, 300, desc='Vector%d::at(i) is the i-th component' % dims, bounds='i < %d, full width' % dims)
+    cb = 4 if thorough else 2
+    q('v3_cross_cb%d' % cb, 'h_vec.c', {'DIMS': 3, 'MODE': 4, 'CB': cb}, 8, 900, backend='kissat', cost=120,
+      desc='cross(a,b) == definition; cross(a,b).dot(a) == 0 and .dot(b) == 0', bounds='components in [-%d,%d]' % (cb, cb))
+    q('v_ctor', 'h_vec.c', {'DIMS': 4, 'MODE': 5}, 8, 300, desc='Vector3(Vector2,z), Vector4(Vector2,z,w), Vector4(Vector3,w), default constructors', bounds='full width')
+    # ---- Matrix4<int32_t> -------------------------------------------------------------------------------------------------------
+    q('m4_mulv', 'h_mat.c', {'MODE': 0, 'VB': 4}, 18, 900, backend='kissat',
+      desc='Matrix4() is the identity; (M v)_r == sum_c m[c][r] v_c; I*v == v (full width)', bounds='entries and components in [-4,4]')
+    q('m4_transpose', 'h_mat.c', {'MODE': 1}, 18, 300, mem_gb=8,
+      desc='transposition()/transpose(): m\'[c][r] == m[r][c]; twice == identity; operator== / != elementwise', bounds='full width')
+    q('m4_ops_lin', 'h_mat.c', {'MODE': 4, 'GROUP': 0}, 18, 600, mem_gb=8,
+      desc='Matrix4 +/- matrix, +/- scalar and compound forms == elementwise definition', bounds='every input whose exact result fits int32')
+    for g, gn in ((1, 'mul'), (2, 'div'), (3, 'mod')):
+        q('m4_ops_%s' % gn, 'h_mat.c', {'MODE': 4, 'GROUP': g, 'MB': 15}, 18, 900, mem_gb=8, backend='kissat',
+          desc='Matrix4 %s scalar and compound form == elementwise definition' % gn, bounds='entries and scalar in [-15,15]')
+    q('m4_mulm_eb1', 'h_mat.c', {'MODE': 2, 'EB': 1}, 18, 900, mem_gb=8, backend='kissat', cost=300,
+      desc='(A B)[c][r] == sum_z A[z][r] B[c][z] (phosg accumulates in double), operator* and operator*=', bounds='entries in [-1,1]')
+    q('m4_assoc_eb1', 'h_mat.c', {'MODE': 3, 'EB': 1}, 18, 900, mem_gb=8, backend='kissat', cost=300,
+      desc='(A B) v == A (B v)', bounds='entries and components in [-1,1]')
     return qs
